@@ -112,6 +112,16 @@ func init() {
 					r["what"] = fmt.Sprintf(format, a...)
 				}
 			}
+			// a sequence with values outside the reference fragment (float literals, conversions of them) has no
+			// reference outcome: it is compared with the single script only
+			refKnown := true
+			for _, st := range c.Frag.Steps {
+				if m, ok := st.V.(map[string]any); ok && !st.Ok {
+					if n, _ := m["name"].(string); strings.HasPrefix(n, "unmodelled") {
+						refKnown = false
+					}
+				}
+			}
 			for _, noopt := range []bool{false, true} {
 				func() {
 					defer func() {
@@ -132,7 +142,7 @@ func init() {
 						// reference: the first failing statement of this fragment, else the last statement
 						var want string
 						failed := false
-						for j := end - len(frags[k]); j < end && j < len(c.Frag.Steps); j++ {
+						for j := end - len(frags[k]); refKnown && j < end && j < len(c.Frag.Steps); j++ {
 							st := c.Frag.Steps[j]
 							if !st.Ok {
 								want = canonS([]any{[]any{"thr", st.V}, c.Frag.Log[:st.NLog]})
@@ -140,11 +150,13 @@ func init() {
 								break
 							}
 						}
-						if !failed {
+						if !failed && refKnown {
 							st := c.Frag.Steps[end-1]
 							want = canonS([]any{[]any{"ret", st.V}, c.Frag.Log[:st.NLog]})
 						}
-						if got != want {
+						if !refKnown {
+							failed = err != nil
+						} else if got != want {
 							fail("noopt=%v fragment %d: session %s, reference %s", noopt, k+1, got, want)
 						}
 						// the concatenation so far as one fragment of a fresh session
